@@ -47,6 +47,8 @@ def oracle(lines):
     prev_size = 0
     prev_tlen = 0
     last_f = {}       # hash -> last observed estimate, valid while no aging/resizing happened
+    before = {}       # hash -> estimate read since the last I/E (i.e. directly before the next op)
+    aged_from = None  # (recorded hash, estimates read directly before the aging step)
     for line in lines:
         op, out, state = C.split_line(line)
         if out.startswith("ERR") or out.startswith("CRASH"):
@@ -60,6 +62,8 @@ def oracle(lines):
             if tlen != prev_tlen:
                 ref.clear()
                 last_f.clear()
+            before = {}
+            aged_from = None
         elif t[0] == "I":
             h = int(t[1])
             if tlen > 0:
@@ -68,6 +72,10 @@ def oracle(lines):
                     for k in ref:
                         ref[k] //= 2
                     last_f.clear()
+                    aged_from = (h, dict(before))
+                else:
+                    aged_from = None
+            before = {}
         elif t[0] == "F":
             h = int(t[1])
             f = int(out)
@@ -78,6 +86,15 @@ def oracle(lines):
             if h in last_f and f < last_f[h]:
                 return f"estimate of {h} dropped from {last_f[h]} to {f} without an aging step: {line}"
             last_f[h] = f
+            before[h] = f
+            if aged_from is not None and h in aged_from[1]:
+                # the aging step floor-halves every estimate at once; the recording that triggered it raised
+                # the estimate of its own key by one (saturating) and of any other key by at most one
+                b = aged_from[1][h]
+                allowed = {min(b + 1, 15) // 2} if h == aged_from[0] else {b // 2, min(b + 1, 15) // 2}
+                if f not in allowed:
+                    return (f"aging step did not floor-halve the estimate of {h}: {b} before the step "
+                            f"(recording {aged_from[0]}), {f} after, expected {sorted(allowed)}: {line}")
         if mask + 1 != tlen and tlen != 0:
             return f"table_mask {mask} does not match table length {tlen}"
         for w in filter(None, m.group(5).split(",")):
@@ -86,6 +103,29 @@ def oracle(lines):
                 return f"word index {i} outside table of length {tlen}"
         prev_size, prev_tlen = size, tlen
     return None
+
+
+def with_aging_probes(lines, trace):
+    """Second phase: read the estimates of the keys in play directly before and after every aging step
+    (positions taken from the implementation's own trace; F is read-only, so the positions do not move)."""
+    ops = lines[1:]
+    if len(trace) != len(ops):
+        return None
+    hs, out, prev, n = [], [lines[0]], 0, 0
+    for op, l in zip(ops, trace):
+        m = SK.search(C.split_line(l)[2])
+        size = int(m.group(1)) if m else prev
+        t = op.split()
+        if t[0] == "I" and size < prev:
+            probe = list(dict.fromkeys([int(t[1])] + hs[-12:][::-1]))
+            out += [f"F {h}" for h in probe] + [op] + [f"F {h}" for h in probe]
+            n += 1
+        else:
+            out.append(op)
+        if t[0] == "I":
+            hs.append(int(t[1]))
+        prev = size
+    return out if n else None
 
 
 def run(pid, tier, seed, model_ok, replay):
@@ -100,6 +140,14 @@ def run(pid, tier, seed, model_ok, replay):
         cases += C.load_corpus("sketch")
         cases += [gen_case(rng, i, tier) for i in range(n)]
     impl = C.run_impl(cases)
+    if not replay:
+        probed = []
+        for name, lines in cases:
+            pl = with_aging_probes(lines, impl.get(name, []))
+            if pl:
+                probed.append((name + "_probed", pl))
+        impl.update(C.run_impl(probed))
+        cases = cases + probed
     model = C.run_model(cases) if model_ok else {}
     violations, disagreements = [], []
     bycase = dict(cases)
